@@ -8,8 +8,8 @@ RULE = ("fault plans enumerated on the real osmium::io::Writer (real write threa
         "RLIMIT_FSIZE = o for every byte offset o of the output (kernel: partial write up to o, then EFBIG - also inside stdio); the "
         "same offsets with ENOSPC/EIO through interposed write() (plain, gzip) or fwrite() (bzip2); the n-th "
         "write/fsync/close/fwrite/fflush/fclose on the output fails (ENOSPC and EIO) for every n; the n-th write fails once with "
-        "EINTR; every write transfers at most m bytes for every m below the longest write; the OPL encoder throws (invalid way node "
-        "location) for every way position. quick: every offset for history A/fast through RLIMIT_FSIZE with fsync, strides 7 (rest of A, B), 251 (L), 9973 (H, fsync only, kernel "
+        "EINTR; every write transfers at most m bytes for every m below the longest write; the OPL encoder throws (tag value ending "
+        "in an incomplete UTF-8 sequence) for every way position. quick: every offset for history A/fast through RLIMIT_FSIZE with fsync, strides 7 (rest of A, B), 251 (L), 9973 (H, fsync only, kernel "
         "faults only) + buffer boundaries (4096/5000/8192/... +-1) + the last 12 offsets elsewhere; thorough: every offset for A and B "
         "(all offset plans), every offset for L through RLIMIT_FSIZE with fsync, strides 13 (rest of L) and 997 (H). Oracle per case: "
         "either a call threw, or close() returned the file's size and the file - decompressed by an own inflate / BZ2_bzDecompress "
